@@ -1113,6 +1113,9 @@ static void do_line(char** lines, size_t n, size_t li, int* recursed) {
       if (f == F_DESTRUCT && m->ecls == AllocHeap) SKIP("misuse");
       if (is_type_in_use(t.id)) SKIP("misuse");
       if (m->ecls == AllocHeap && referenced(t.id)) SKIP("referenced");
+      /* the refusal of a Box that is not on the heap shows what it points to: not when that was released behind its back */
+      if ((f == F_DEALLOC || f == F_DEALLOC_RAW || f == F_DEALLOC_ROOT) && m->ecls != AllocHeap && m->kind == K_BOX && ((struct Box*)x)->val != NULL &&
+          !is_live(id_of(((struct Box*)x)->val))) SKIP("dangling");
       describe(before, before + sizeof before, t);
       var xty = magic_ok(x) ? type_of(x) : NULL; int cl = m->ecls;
       nforb = 0; forb_hits = 0;
